@@ -64,7 +64,7 @@ func genMembership(r *rng, index int) *Spec {
 	}
 	_ = master
 	// interruption of the reacting iteration
-	mode := []string{"none", "after", "after", "fail", "before", "kill_master_mysql"}[(index/12)%6]
+	mode := []string{"none", "after", "after", "fail", "before", "kill_master_mysql", "kill_master_after_replica_mutation"}[(index/12)%7]
 	if mode != "none" {
 		n := 1 + (index/72)%45 + r.intn(3)
 		arm := T
@@ -79,6 +79,15 @@ func genMembership(r *rng, index int) *Spec {
 			// aim at the iteration that evicts: the victim has been dead for the inactivation delay
 			sp.CrashAt.ArmAfterMs = T + c.InactivationDelayMs + 2*c.HealthMs + c.SessionTimeoutMs - int64(r.intn(int(c.TickMs)))
 			sp.CrashAt.N = 20 + r.intn(40)
+			sp.CrashAt.RestartMs = int64(r.pickInt(3000, 10000))
+		}
+		if mode == "kill_master_after_replica_mutation" {
+			// armed from the transition on: fires in whatever iteration first changes a replica
+			sp.CrashAt.ArmAfterMs = T
+			if r.chance(0.5) {
+				sp.CrashAt.ArmAfterMs = T + c.InactivationDelayMs - c.TickMs
+			}
+			sp.CrashAt.N = 1 + r.intn(3)
 			sp.CrashAt.RestartMs = int64(r.pickInt(3000, 10000))
 		}
 		if sp.CrashAt.RestartMs == 0 && mode != "fail" && len(ha) == 2 {
